@@ -2,6 +2,8 @@
 package document
 
 import (
+	"bytes"
+	"encoding/xml"
 	"fmt"
 	"os"
 	"path/filepath"
@@ -1892,12 +1894,13 @@ func (te *TemplateEngine) replaceVariablesInXMLPart(xmlData []byte, data *Templa
 
 // escapeXMLContent 转义XML特殊字符
 func (te *TemplateEngine) escapeXMLContent(s string) string {
-	s = strings.ReplaceAll(s, "&", "&amp;")
-	s = strings.ReplaceAll(s, "<", "&lt;")
-	s = strings.ReplaceAll(s, ">", "&gt;")
-	s = strings.ReplaceAll(s, "\"", "&quot;")
-	s = strings.ReplaceAll(s, "'", "&apos;")
-	return s
+	// 使用 encoding/xml 的转义：除 & < > " ' 外，还会把XML中不合法的控制字符替换掉，
+	// 否则页眉页脚部件会变成非良构XML
+	var buf bytes.Buffer
+	if err := xml.EscapeText(&buf, []byte(s)); err != nil {
+		return ""
+	}
+	return buf.String()
 }
 
 // processDocumentLevelLoops 处理文档级别的循环（跨段落）
